@@ -8,6 +8,10 @@ import Q1t.Spec.StabEnum
 import Q1t.Gen.PhaseTable
 import Q1t.Gen.Conj
 import Std.Data.HashSet
+import Driver.GateParse
+import Q1t.Base.Q8
+import Q1t.Model.Conj
+import Q1t.Spec.Unitaries
 /-! Driver for C03: one request per line, one answer per line.
 
 Requests (words separated by blanks; a tableau is its `Display` lines joined by `,`, `_` = 0 qubits):
@@ -92,6 +96,64 @@ def countClosure (n : Nat) : Option Nat := Id.run do
     frontier := next
   return if failed then none else some seen.size
 
+/-! ### combinator gate terms -/
+
+/-- `conjugate` of a gate term as the tableau model needs it (Model/Conj.lean with the generated tables) -/
+def conjTerm (g : GateTerm Float) : Tab.Conj := fun ops =>
+  match Q1t.Conj.conjugateT Q1t.Gen.conjTable Q1t.Gen.conjNoArityCheck g ops with
+  | .ok r => .ok r
+  | .error (.invalidNrBits a b) => .error (.invalidNrBits a b)
+  | .error .notAStabilizer => .error .notAStabilizer
+  | .error .oob => .error (.invalidNrBits 999999 999999)   -- index panic inside Composite::conjugate; not generated
+
+def parseBits (s : String) : Option (List Nat) :=
+  if s = "-" then some [] else nats? (s.splitOn ",")
+
+mutual
+/-- the same term without parameters; `none` if it has a parametrised leaf -/
+partial def toE : GateTerm Float → Option (GateTerm Empty)
+  | .H => some .H | .X => some .X | .Y => some .Y | .Z => some .Z | .S => some .S | .Sdg => some .Sdg
+  | .T => some .T | .Tdg => some .Tdg | .V => some .V | .Vdg => some .Vdg | .I => some .I
+  | .CX => some .CX | .CY => some .CY | .CZ => some .CZ | .Swap => some .Swap
+  | .C g => (toE g).map .C
+  | .Kron a b => do let a ← toE a; let b ← toE b; pure (.Kron a b)
+  | .Composite nm n ops => (toEOps ops).map (.Composite nm n)
+  | .Loop l k nm n ops => (toEOps ops).map (.Loop l k nm n)
+  | _ => none
+partial def toEOps : OpList Float → Option (OpList Empty)
+  | .nil => some .nil
+  | .cons g bits rest => do let g ← toE g; let r ← toEOps rest; pure (.cons g bits r)
+end
+
+mutual
+/-- Clifford-only and well-formed, decided on the syntax: every leaf is one of the 13 stabilizer gates, no
+`C<..>`, every sub-gate sits on as many distinct in-range local qubits as it has -/
+partial def cliffordWF : GateTerm Empty → Bool
+  | .H | .X | .Y | .Z | .S | .Sdg | .V | .Vdg | .I | .CX | .CY | .CZ | .Swap => true
+  | .Kron a b => cliffordWF a && cliffordWF b
+  | .Composite _ n ops => cliffordWFOps n ops
+  | .Loop _ _ _ n ops => cliffordWFOps n ops
+  | _ => false
+partial def cliffordWFOps (n : Nat) : OpList Empty → Bool
+  | .nil => true
+  | .cons g bits rest =>
+    cliffordWF g && bits.length == Gate.nrBits g && bits.all (· < n) &&
+      Q1t.Spec.StabEnum.nodupBy (· == ·) bits && cliffordWFOps n rest
+end
+
+/-- the documented matrix of `g` (Spec.specMatrix over ℚ(ζ₈)) embedded on `bits` (Spec.embed), multiplied by
+the common denominator of its entries so that it lies in ℤ[ζ₈] (a positive multiple: rays are unchanged) -/
+def termMatrix (g : GateTerm Empty) (n : Nat) (bits : List Nat) : List (List Z8) :=
+  let M : LMat Q8 := Q1t.Spec.embed n bits (Q1t.Spec.specMatrix (α := Q8) (P := Empty) g)
+  let d : Nat := M.foldl (fun acc row => row.foldl (fun acc x =>
+    Nat.lcm (Nat.lcm (Nat.lcm (Nat.lcm acc x.a.den) x.b.den) x.c.den) x.d.den) acc) 1
+  let D : Rat := (d : Int)
+  M.map fun row => row.map fun x => ⟨(x.a * D).num, (x.b * D).num, (x.c * D).num, (x.d * D).num⟩
+
+/-- exact state-vector result: (scaled, embedded documented matrix) · ψ -/
+def applyTermSpec (M : List (List Z8)) (ψ : Vec) : Vec :=
+  M.map fun row => (List.zipWith (· * ·) row ψ).foldl (· + ·) 0
+
 def handle (line : String) : String :=
   match words line with
   | ["new", n] =>
@@ -149,6 +211,18 @@ def handle (line : String) : String :=
         match q.toNat? with
         | some q => showTabRes (t.reset ph q)
         | none => "bad-op"
+      | "mcollapse", [q, v] =>
+        match q.toNat?, bool? v with
+        | some q, some v =>
+          match t.measure q with
+          | .ok (.deterministic b) => s!"det {if b then 1 else 0}"
+          | .ok (.random i) => showTabRes (t.collapse ph i q v)
+          | r => showRes showMInfo r
+        | _, _ => "bad-op"
+      | "tgate", _mode :: bits :: term =>
+        match parseBits bits, Q1t.GateParse.parseGate term with
+        | some bits, some (g, []) => showTabRes (t.applyGate ph (conjTerm g) bits)
+        | _, _ => "bad-op"
       | "words", [] =>
         match Q1t.TableauBits.ofTab t with
         | some tb =>
@@ -189,7 +263,8 @@ def amplitudeOfWord (n : Nat) (v : Vec) (w : Nat) : Z8 :=
   let idx := (List.range n).foldl (fun acc q => acc * 2 + (w / 2 ^ q) % 2) 0
   vget v idx
 
-def specCheck (line : String) : String :=
+/-- `mat`: the embedded documented matrix of a `tgate` request when the caller has it cached -/
+def specCheck (mat : Option (List (List Z8))) (line : String) : String :=
   match line.splitOn "\t" with
   | [req, ans] =>
     let aw := words ans
@@ -288,6 +363,36 @@ def specCheck (line : String) : String :=
                   | .other => "fail spec-state-not-stabilizer"
               else "skip"
             | none => "fail bad-request"
+          | "mcollapse", [q, v] =>
+            match q.toNat?, bool? v with
+            | some q, some v =>
+              if q < n && rrefB t then
+                match measKind n q ψ with
+                | .certain b => if aw == ["det", if b then "1" else "0"] then "ok"
+                                else "fail mcollapse-certain-not-reported-deterministic"
+                | .fair =>
+                  match resTab with
+                  | some t' => if !stabilizesB t' (proj n q v ψ) then "fail mcollapse-result-not-stabilizing measure's Random(i) then collapse(i, q, v) does not give the tableau of the projected state vector"
+                               else if !rrefB t' then "fail mcollapse-result-not-canonical" else "ok"
+                  | none => "fail mcollapse-did-not-return"
+                | .other => "fail spec-state-not-stabilizer"
+              else "skip"
+            | _, _ => "fail bad-request"
+          | "tgate", _mode :: bits :: term =>
+            match parseBits bits, Q1t.GateParse.parseGate term with
+            | some bits, some (g, []) =>
+              match toE g with
+              | none => "skip"
+              | some ge =>
+                if cliffordWF ge && distinctInRange n bits && bits.length == Gate.nrBits ge then
+                  match resTab with
+                  | some t' =>
+                    let ψ' := applyTermSpec (mat.getD (termMatrix ge n bits)) ψ
+                    if !stabilizesB t' ψ' then "fail tgate-result-not-stabilizing the tableau after apply_gate of a Clifford-only combinator does not stabilize (documented matrix embedded on the qubits) * state"
+                    else if !rrefB t' then "fail tgate-result-not-canonical" else "ok"
+                  | none => "fail tgate-did-not-return"
+                else "skip"
+            | _, _ => "fail bad-request"
           | "words", [] => "skip"
           | "peekall", [] =>
             if !rrefB t then "skip" else
@@ -302,6 +407,7 @@ def specCheck (line : String) : String :=
             | _ => "fail peekall-did-not-return"
           | "smeasure", [q] =>
             if !rrefB t then "skip" else
+            if aw.head? == some "panic" then "fail smeasure-did-not-return StabilizerState::measure panicked" else
             match q.toNat?, aw with
             | some q, [o, ts'] =>
               match bool? o, parseTab ts' with
@@ -315,5 +421,37 @@ def specCheck (line : String) : String :=
     | _ => "fail bad-request"
   | _ => "fail bad-line"
 
+/-- spec mode: as `serve`, with a cache of the embedded matrices of `tgate` requests keyed by
+(number of qubits, placement, term) -/
+partial def serveSpec : IO Unit := do
+  let stdin ← IO.getStdin
+  let stdout ← IO.getStdout
+  let mut cache : Std.HashMap String (List (List Z8)) := {}
+  repeat
+    let line ← stdin.getLine
+    if line.isEmpty then break
+    let mut mat : Option (List (List Z8)) := none
+    if line.startsWith "tgate " then
+      match words ((line.splitOn "\t").headD "") with
+      | "tgate" :: ts :: _mode :: bits :: term =>
+        let n := if ts = "_" then 0 else (ts.splitOn ",").length
+        let key := s!"{n} {bits} " ++ " ".intercalate term
+        match cache[key]? with
+        | some m => mat := some m
+        | none =>
+          if n ≤ 8 then
+            match parseBits bits, Q1t.GateParse.parseGate term with
+            | some bs, some (g, []) =>
+              match toE g with
+              | some ge =>
+                let m := termMatrix ge n bs
+                cache := cache.insert key m
+                mat := some m
+              | none => pure ()
+            | _, _ => pure ()
+      | _ => pure ()
+    stdout.putStrLn (specCheck mat line)
+  stdout.flush
+
 def main (args : List String) : IO Unit :=
-  if args = ["spec"] then serve specCheck else serve handle
+  if args = ["spec"] then serveSpec else serve handle
